@@ -182,6 +182,13 @@ impl SimQueue {
             (None, None) => None,
         }
     }
+
+    /// Read access to the packets-per-second limit derived by the trace
+    /// parser (verification hook).
+    #[cfg(feature = "verif")]
+    pub fn verif_max_pps(&self) -> Option<usize> {
+        self.max_pps
+    }
 }
 
 fn peek_blocking(
